@@ -377,6 +377,7 @@ func runC16(c *Ctx) {
 		type cp struct{ dst, src string }
 		var copies []cp
 		inGo := 0
+		unfaithful := ""
 		// the handler's body: itself and its single-call-site helpers; the pipe's goroutines
 		// are function literals of those
 		// goroutines started (with `go`) from the handler or its helpers: a function literal or
@@ -439,14 +440,22 @@ func runC16(c *Ctx) {
 					return v
 				}
 				w.eachInstrDeep(gf, func(in ssa.Instruction) {
-					if call, ok := in.(*ssa.Call); ok && call.Call.StaticCallee() != nil && call.Call.StaticCallee().String() == "io.Copy" {
-						copies = append(copies, cp{connRole(w, arg(call.Call.Args[0]), tcpGet), connRole(w, arg(call.Call.Args[1]), tcpGet)})
-						inGo++
+					if call, ok := in.(*ssa.Call); ok {
+						if dst, src, isCopy, why := w.copyCallOf(call); isCopy {
+							copies = append(copies, cp{connRole(w, arg(dst), tcpGet), connRole(w, arg(src), tcpGet)})
+							inGo++
+							if why != "" {
+								unfaithful = fname(call.Call.StaticCallee()) + " " + why
+							}
+						}
 					}
 				})
 			}
 		}
 		c.Anchor("C16.6", "two directions")
+		if unfaithful != "" {
+			c.Bad("C16.6", fname(h), "faithful copy", w.pos(h.Pos()), "the relay loop that stands in for io.Copy does not carry the stream over intact: "+unfaithful)
+		}
 		if len(copies) == 2 && inGo == 2 && copies[0].dst == copies[1].src && copies[0].src == copies[1].dst && copies[0].dst != copies[0].src &&
 			((copies[0].dst == "peer" && copies[0].src == "client") || (copies[0].dst == "client" && copies[0].src == "peer")) {
 			c.OK("C16.6", fname(h), "two directions", w.pos(h.Pos()), "io.Copy(peer, client) and io.Copy(client, peer), each in its own goroutine")
@@ -505,8 +514,10 @@ func runC16(c *Ctx) {
 			for _, gf := range sortedFns(goFns) {
 				hasCopy := false
 				w.eachInstrDeep(gf, func(in ssa.Instruction) {
-					if call, ok := in.(*ssa.Call); ok && call.Call.StaticCallee() != nil && call.Call.StaticCallee().String() == "io.Copy" {
-						hasCopy = true
+					if call, ok := in.(*ssa.Call); ok {
+						if _, _, isCopy, _ := w.copyCallOf(call); isCopy {
+							hasCopy = true
+						}
 					}
 				})
 				if !hasCopy || len(gf.Blocks) == 0 {
